@@ -398,7 +398,11 @@ func check(id, tier string) int {
 					continue
 				}
 			}
-			if o.res == nil && part.Race && strings.Contains(o.stderr, "panic: ") {
+			if f := initCrash(o); f != nil && part.Race {
+				found = append(found, partFound{Found: *f, part: part, bin: bin})
+				continue
+			}
+			if o.res == nil && part.Race && (strings.Contains(o.stderr, "panic: ") || strings.Contains(o.stderr, "fatal error: ")) {
 				if cf := crashFound(tmp, bin, part, tier, seed, o); len(cf) > 0 {
 					for _, f := range cf {
 						found = append(found, partFound{Found: f, part: part, bin: bin})
@@ -645,8 +649,8 @@ func replay(path string) int {
 	}
 	if rf.Clause == "crash" {
 		ro := runWorker(tmp, bin, core.Job{Property: world, Tier: "quick", Mode: "replay", Replay: abs, Worker: 99}, part.asCfg(), 10*time.Minute)
-		if ro.res == nil && strings.Contains(ro.stderr, "panic: ") {
-			fmt.Printf("  clause=crash: %s\n", core.Trunc(ro.stderr[strings.Index(ro.stderr, "panic: "):], 800))
+		if ro.res == nil && (strings.Contains(ro.stderr, "panic: ") || strings.Contains(ro.stderr, "fatal error: ")) {
+			fmt.Printf("  clause=crash: %s\n", core.Trunc(tail(ro.stderr, 800), 800))
 			fmt.Printf("VIOLATION property=%s replay=%s\n", rf.Property, abs)
 			return 1
 		}
